@@ -136,8 +136,10 @@ static void c4_case(uint64_t idx, void *vctx)
     c4_ctx *c = vctx; int th = c->thorough;
     int rep, fil, xi, place, smode, szi, fi;
     if (th) {
+        static const int tsz[5] = { 0, 2, 3, 4, 5 };
         rep = (int)(idx % 4); idx /= 4; fil = (int)(idx % 6); idx /= 6; xi = (int)(idx % NXF); idx /= NXF;
-        place = (int)(idx % 2); idx /= 2; smode = (int)(idx % 3); idx /= 3; szi = (int)(idx % NSSZ); idx /= NSSZ; fi = (int)(idx % NSF);
+        smode = (int)(idx % 3); idx /= 3; szi = tsz[idx % 5]; idx /= 5; fi = (int)(idx % NSF);
+        place = (xi + rep + fil + fi) & 1;
     } else {
         /* quick: 3 sizes, stride modes {minimal, negative}, placement alternating, 4 filters */
         static const int qsz[3] = { 0, 3, 4 }, qfil[4] = { 0, 1, 2, 4 };
@@ -154,7 +156,7 @@ static void c4_case(uint64_t idx, void *vctx)
     pixman_image_set_repeat(im.img, reps[rep]);
     /* destinations: guard-paged too */
     static const pixman_format_code_t dfm[] = { PIXMAN_a8r8g8b8, PIXMAN_r5g6b5, PIXMAN_a8 };
-    int ndf = th ? 3 : 1;
+    int ndf = th ? 2 : 1;
     pixman_color_t white = { 0xffff, 0x8000, 0x4000, 0xc000 };
     pixman_image_t *solid = pixman_image_create_solid_fill(&white);
     static const pixman_op_t ops[3] = { PIXMAN_OP_SRC, PIXMAN_OP_OVER, PIXMAN_OP_ADD };
@@ -322,6 +324,7 @@ int main(int argc, char **argv)
     ph_init_cfgs();
     init_xf();
     vf_classify_abnormal = classify;
+    vf_hang_s = 240;    /* REPEAT_NORMAL on a 1x1 source at coordinate ~32767 loops 32767 times per sample: slow, not hung */
     fpe_count = mmap(NULL, 4096, PROT_READ | PROT_WRITE, MAP_SHARED | MAP_ANONYMOUS, -1, 0);
     { struct sigaction sa; memset(&sa, 0, sizeof sa); sa.sa_handler = on_fpe; sa.sa_flags = SA_NODEFER; sigaction(SIGFPE, &sa, NULL); }
     int th = vf_is_thorough();
@@ -332,15 +335,15 @@ int main(int argc, char **argv)
     vf_assume("AddressSanitizer (clang) instruments the C code and intrinsics; guard pages catch what it cannot see");
     vf_assume("image sizes up to 64x3 and the listed formats only");
     c4_ctx c = { th };
-    uint64_t nfull = th ? (uint64_t)4 * 6 * NXF * 2 * 3 * NSSZ * NSF : (uint64_t)4 * 4 * NXF * 2 * 3 * NSF;
+    uint64_t nfull = th ? (uint64_t)4 * 6 * NXF * 3 * 5 * NSF : (uint64_t)4 * 4 * NXF * 2 * 3 * NSF;
     vf_space_run("composite-transformed-sources", nfull, c4_case, &c);
     vf_space_run("trapezoid-entry-points", th ? (uint64_t)NTY * NTY * NTX * NTX * NTX * 3 * 5 : (uint64_t)9 * 9 * 7 * 7 * 7 * 3 * 2, trap_case, th ? &c : NULL);
     vf_space_run("glyph-positions", (uint64_t)14 * 14 * 3 * 2 * 3, glyph_case, NULL);
     vf_space_run("create-bits-sizes", 9 * 9 * 6, create_case, NULL);
     static char b[300];
-    snprintf(b, sizeof b, "%d source formats x %s sizes x %s stride modes x 2 placements x %d transforms x %d filters x 4 repeats x 6 requests x %d ops x %d cfgs x %d destination formats; "
-             "trapezoids %dx%d y x %d^3 x values x 3 depths x %d offsets; glyphs 14x14 positions; create_bits 9x9 sizes x 6 formats", NSF, th ? "6" : "3 of 6", th ? "3" : "2 of 3", NXF, th ? 6 : 4,
-             th ? 3 : 2, th ? 6 : 4, th ? 3 : 1, th ? NTY : 9, th ? NTY : 9, th ? NTX : 7, th ? 5 : 2);
+    snprintf(b, sizeof b, "%d source formats x %s sizes x %s stride modes x alternating guard-page placement x %d transforms x %d filters x 4 repeats x 6 requests x %d ops x %d cfgs x %d destination formats; "
+             "trapezoids %dx%d y x %d^3 x values x 3 depths x %d offsets; glyphs 14x14 positions; create_bits 9x9 sizes x 6 formats", NSF, th ? "5 of 6" : "3 of 6", th ? "3" : "2 of 3", NXF, th ? 6 : 4,
+             th ? 3 : 2, th ? 6 : 4, th ? 2 : 1, th ? NTY : 9, th ? NTY : 9, th ? NTX : 7, th ? 5 : 2);
     vf_bounds = b;
     snprintf(vf->extra_json, sizeof vf->extra_json, "\"arithmetic_traps_observed\": %llu, \"arithmetic_traps_note\": \"SIGFPE (INT_MIN / -1 in pixman_edge_init for edges spanning the whole 16.16 y range) is a crash but not an out-of-bounds access; counted, not judged\"", (unsigned long long)*fpe_count);
     return vf_finish();
